@@ -13,6 +13,7 @@ import (
 )
 
 type Clause struct {
+	Internal bool
 	Label string
 	Props []string
 	Expr  Expr
@@ -27,6 +28,7 @@ type SiteSpec struct {
 	Clause  *Clause
 	Hits    int
 	Lemma    bool   // proved at the site and assumed afterwards
+	Before   bool   // ghost set evaluated before the call executes
 	SetGhost string // `at call f: set $g := expr` (expr may mention res)
 	SetExpr  Expr
 }
@@ -130,7 +132,7 @@ type SpecFile struct {
 }
 
 var itemKeywords = map[string]bool{"ghost": true, "datatype": true, "pure": true, "lock": true, "iface": true, "func": true, "atomic": true, "lemma": true, "axiom": true}
-var subKeywords = map[string]bool{"protects": true, "inv": true, "assigns": true, "held": true, "ensures": true, "requires": true, "safety": true,
+var subKeywords = map[string]bool{"protects": true, "inv": true, "assigns": true, "held": true, "ensures": true, "ensures-internal": true, "requires": true, "safety": true,
 	"monitor": true, "let": true, "loop": true, "at": true, "arith": true, "conv": true, "panics": true, "bytes": true, "inline": true, "modular": true,
 	"discipline": true, "recv": true, "assume": true, "trusted": true, "strict": true, "forall": false, "hyp": true, "concl": true, "vars": true}
 
@@ -336,10 +338,15 @@ func ParseSpecFile(path string) (*SpecFile, error) {
 			name, props := splitLabelProps(rest)
 			curIface.RequiresHeld = name
 			curIface.HeldProps = props
-		case "requires", "ensures":
+		case "requires", "ensures", "ensures-internal":
 			c, err := parseClause(rest, s.no)
 			if err != nil {
 				return nil, fail("%v", err)
+			}
+			if w == "ensures-internal" {
+				// proved for the function itself, not exported to callers (it may mention the function's locals)
+				c.Internal = true
+				w = "ensures"
 			}
 			switch {
 			case curFunc != nil && w == "requires":
@@ -401,6 +408,11 @@ func ParseSpecFile(path string) (*SpecFile, error) {
 				return nil, fail("at outside func")
 			}
 			// at call <callee> [#k]: assert L [props]: e      |  at call <callee> [#k]: set $g := e
+			before := false
+			if j := strings.Index(rest, ": setbefore "); j >= 0 {
+				rest = rest[:j] + ": set " + rest[j+len(": setbefore "):]
+				before = true
+			}
 			if j := strings.Index(rest, ": set "); j >= 0 {
 				head := strings.TrimSpace(rest[:j])
 				kind := firstWord(head)
@@ -421,7 +433,7 @@ func ParseSpecFile(path string) (*SpecFile, error) {
 				if err != nil {
 					return nil, fail("%v", err)
 				}
-				curFunc.Sites = append(curFunc.Sites, &SiteSpec{Kind: kind, Callee: callee, Ordinal: ord, SetGhost: strings.TrimSpace(body[:a]), SetExpr: ex,
+				curFunc.Sites = append(curFunc.Sites, &SiteSpec{Kind: kind, Callee: callee, Ordinal: ord, SetGhost: strings.TrimSpace(body[:a]), SetExpr: ex, Before: before,
 					Clause: &Clause{Label: "set " + strings.TrimSpace(body[:a]), Line: s.no}})
 				break
 			}
